@@ -16,6 +16,8 @@
    payload bytes) are not represented.  The TLS engine below the CRYPTO handler is modelled for
    the post-handshake states; for handshake states its answer is an input ([tls_oracle]). *)
 From AQ Require Import lib.Base lib.Tok model.RangeSet model.StreamRecv model.Frames gen.C05Tables.
+From AQ Require gen.C05Tls.
+Definition MAX_HANDSHAKE_MESSAGE_SIZE : Z := C05Tls.MAX_HANDSHAKE_MESSAGE_SIZE.
 
 (* ---------- exception kinds (Python classes that nothing below the API boundary catches) *)
 Definition EXN_AssertionError : Z := 1.
@@ -68,7 +70,8 @@ Record cst := mkCst {
   c_crypto_i : recv;           (* _crypto_streams[INITIAL].receiver *)
   c_crypto_h : recv;           (* _crypto_streams[HANDSHAKE].receiver *)
   c_crypto_1 : recv;           (* _crypto_streams[ONE_RTT].receiver *)
-  c_close : option (bool * Z * Z)   (* _close_event: (initiated by us, error_code, frame_type or -1) *)
+  c_close : option (bool * Z * Z);  (* _close_event: (initiated by us, error_code, frame_type or -1) *)
+  c_host_unsent : list Z       (* sequence numbers of _host_cids with `not was_sent and sequence_number > _host_cid_seq_sent` *)
 }.
 
 (* record update helpers (one per field that handlers write) *)
@@ -77,25 +80,25 @@ Definition set_streams (st : cst) (l : list stream) (md_used : Z) : cst :=
     (c_msd_uni st) (c_dgram_max st) (c_host_seq st) (c_ctx_cid st) (c_remote_cid_limit st) (c_peer_seq st)
     (c_peer_rpt st) (c_retire_pending st) (c_cid_limit st) (c_tls_state st) (c_tls_oracle st) (c_host_cids st)
     (c_peer_avail st) (c_peer_seen st) (c_challenges st) (c_finished st) (c_tls_buf st) l
-    (c_crypto_i st) (c_crypto_h st) (c_crypto_1 st) (c_close st).
-Definition set_host (st : cst) (seq : Z) (cids : list Z) : cst :=
+    (c_crypto_i st) (c_crypto_h st) (c_crypto_1 st) (c_close st) (c_host_unsent st).
+Definition set_host (st : cst) (seq : Z) (cids unsent : list Z) : cst :=
   mkCst (c_is_client st) (c_md_used st) (c_md_value st) (c_ms_bidi st) (c_ms_uni st) (c_msd_bidi_remote st)
     (c_msd_uni st) (c_dgram_max st) seq (c_ctx_cid st) (c_remote_cid_limit st) (c_peer_seq st)
     (c_peer_rpt st) (c_retire_pending st) (c_cid_limit st) (c_tls_state st) (c_tls_oracle st) cids
     (c_peer_avail st) (c_peer_seen st) (c_challenges st) (c_finished st) (c_tls_buf st) (c_streams st)
-    (c_crypto_i st) (c_crypto_h st) (c_crypto_1 st) (c_close st).
+    (c_crypto_i st) (c_crypto_h st) (c_crypto_1 st) (c_close st) unsent.
 Definition set_peer (st : cst) (seq rpt pending : Z) (avail seen : list Z) : cst :=
   mkCst (c_is_client st) (c_md_used st) (c_md_value st) (c_ms_bidi st) (c_ms_uni st) (c_msd_bidi_remote st)
     (c_msd_uni st) (c_dgram_max st) (c_host_seq st) (c_ctx_cid st) (c_remote_cid_limit st) seq
     rpt pending (c_cid_limit st) (c_tls_state st) (c_tls_oracle st) (c_host_cids st)
     avail seen (c_challenges st) (c_finished st) (c_tls_buf st) (c_streams st)
-    (c_crypto_i st) (c_crypto_h st) (c_crypto_1 st) (c_close st).
+    (c_crypto_i st) (c_crypto_h st) (c_crypto_1 st) (c_close st) (c_host_unsent st).
 Definition set_challenges (st : cst) (l : list Z) : cst :=
   mkCst (c_is_client st) (c_md_used st) (c_md_value st) (c_ms_bidi st) (c_ms_uni st) (c_msd_bidi_remote st)
     (c_msd_uni st) (c_dgram_max st) (c_host_seq st) (c_ctx_cid st) (c_remote_cid_limit st) (c_peer_seq st)
     (c_peer_rpt st) (c_retire_pending st) (c_cid_limit st) (c_tls_state st) (c_tls_oracle st) (c_host_cids st)
     (c_peer_avail st) (c_peer_seen st) l (c_finished st) (c_tls_buf st) (c_streams st)
-    (c_crypto_i st) (c_crypto_h st) (c_crypto_1 st) (c_close st).
+    (c_crypto_i st) (c_crypto_h st) (c_crypto_1 st) (c_close st) (c_host_unsent st).
 Definition set_crypto (st : cst) (epoch : Z) (r : recv) (tls_buf : list Z) : cst :=
   mkCst (c_is_client st) (c_md_used st) (c_md_value st) (c_ms_bidi st) (c_ms_uni st) (c_msd_bidi_remote st)
     (c_msd_uni st) (c_dgram_max st) (c_host_seq st) (c_ctx_cid st) (c_remote_cid_limit st) (c_peer_seq st)
@@ -103,13 +106,13 @@ Definition set_crypto (st : cst) (epoch : Z) (r : recv) (tls_buf : list Z) : cst
     (c_peer_avail st) (c_peer_seen st) (c_challenges st) (c_finished st) tls_buf (c_streams st)
     (if epoch =? EPOCH_INITIAL then r else c_crypto_i st)
     (if epoch =? EPOCH_HANDSHAKE then r else c_crypto_h st)
-    (if epoch =? EPOCH_ONE_RTT then r else c_crypto_1 st) (c_close st).
+    (if epoch =? EPOCH_ONE_RTT then r else c_crypto_1 st) (c_close st) (c_host_unsent st).
 Definition set_close (st : cst) (ev : option (bool * Z * Z)) : cst :=
   mkCst (c_is_client st) (c_md_used st) (c_md_value st) (c_ms_bidi st) (c_ms_uni st) (c_msd_bidi_remote st)
     (c_msd_uni st) (c_dgram_max st) (c_host_seq st) (c_ctx_cid st) (c_remote_cid_limit st) (c_peer_seq st)
     (c_peer_rpt st) (c_retire_pending st) (c_cid_limit st) (c_tls_state st) (c_tls_oracle st) (c_host_cids st)
     (c_peer_avail st) (c_peer_seen st) (c_challenges st) (c_finished st) (c_tls_buf st) (c_streams st)
-    (c_crypto_i st) (c_crypto_h st) (c_crypto_1 st) ev.
+    (c_crypto_i st) (c_crypto_h st) (c_crypto_1 st) ev (c_host_unsent st).
 
 Definition CRYPTO_FAR : Z := 2000.
 
@@ -191,7 +194,8 @@ Fixpoint tls_reassemble (fuel : nat) (st : cst) (buf : list Z) : tres :=
       match buf with
       | t :: l1 :: l2 :: l3 :: _ =>
           let mlen := 4 + be_value 0 [l1; l2; l3] in
-          if Zlen buf <? mlen then TOk buf
+          if mlen >? MAX_HANDSHAKE_MESSAGE_SIZE then TAlert ALERT_decode_error      (* bb5bf12 *)
+          else if Zlen buf <? mlen then TOk buf
           else match tls_message_outcome st t with
                | TOk _ => tls_reassemble fuel st (zdrop mlen buf)
                | r => r
@@ -232,7 +236,8 @@ Definition h_reset_stream (st : cst) (ft : Z) (b : list Z) : hres :=
       let newly := Z.max 0 (final - s_highest s) in
       if c_md_used st + newly >? c_md_value st then HErr true EC_FLOW_CONTROL_ERROR ft else
       if negb (s_final s =? -1) && negb (s_final s =? final) then HErr true EC_FINAL_SIZE_ERROR ft else
-      let s' := mkStream (s_id s) (s_max_local s) (s_highest s) final in
+      (* 7a80139: the bytes up to the final size are accounted for *)
+      let s' := mkStream (s_id s) (s_max_local s) (Z.max (s_highest s) final) final in
       HOk (set_streams st (put_stream s' (c_streams st)) (c_md_used st + newly)) rest)
   end end end.
 
@@ -330,8 +335,10 @@ Definition h_new_connection_id (patched : bool) (st : cst) (ft : Z) (b : list Z)
     let avail := filter (fun s => s >=? prt) (c_peer_avail st) in
     let fresh := (seq >=? prt) && negb (zmem seq (c_peer_seen st)) in
     let avail := if fresh then avail ++ [seq] else avail in
-    let seen := if fresh then c_peer_seen st ++ [seq] else c_peer_seen st in
-    let pending := c_retire_pending st + Zlen retired + (if change then 1 else 0) in
+    (* 3cd563e: a connection ID arriving below an already processed Retire Prior To is retired at once *)
+    let late := negb fresh && negb (zmem seq (c_peer_seen st)) in
+    let seen := if fresh || late then c_peer_seen st ++ [seq] else c_peer_seen st in
+    let pending := c_retire_pending st + Zlen retired + (if change then 1 else 0) + (if late then 1 else 0) in
     let finish (peer : Z) (avail : list Z) : hres :=
       if 1 + Zlen avail >? c_cid_limit st then HErr true EC_CONNECTION_ID_LIMIT_ERROR ft else
       if pending >? Z.min (c_cid_limit st * 4) MAX_PENDING_RETIRES
@@ -354,12 +361,13 @@ Fixpoint replenish (n : nat) (seq : Z) (cids : list Z) : Z * list Z :=
 
 Definition h_retire_connection_id (st : cst) (ft : Z) (b : list Z) : hres :=
   match pull_uint_var b with PErr => HBuf | POk seq rest =>
-    if seq >=? c_host_seq st then HErr true EC_PROTOCOL_VIOLATION ft else
+    (* dbe9b3d: ... or a connection ID that was never sent *)
+    if (seq >=? c_host_seq st) || zmem seq (c_host_unsent st) then HErr true EC_PROTOCOL_VIOLATION ft else
     if zmem seq (c_host_cids st) && (seq =? c_ctx_cid st) then HErr true EC_PROTOCOL_VIOLATION ft else
     let cids := filter (fun s => negb (s =? seq)) (c_host_cids st) in
     let want := Z.min 8 (c_remote_cid_limit st) - Zlen cids in
     let '(hseq, cids) := replenish (Z.to_nat want) (c_host_seq st) cids in
-    HOk (set_host st hseq cids) rest
+    HOk (set_host st hseq cids (snd (replenish (Z.to_nat want) (c_host_seq st) (c_host_unsent st)))) rest
   end.
 
 Definition h_path_challenge (st : cst) (b : list Z) : hres :=
@@ -374,7 +382,7 @@ Fixpoint remove_first (x : Z) (l : list Z) : list Z :=
 Definition h_path_response (st : cst) (ft : Z) (b : list Z) : hres :=
   match pull_bytes 8 b with PErr => HBuf | POk data rest =>
     let v := be_value 0 data in
-    if zmem v (c_challenges st) then HOk (set_challenges st (remove_first v (c_challenges st))) rest
+    if zmem v (c_challenges st) then HOk st rest        (* e2ac9c0: the challenge is kept *)
     else HErr true EC_PROTOCOL_VIOLATION ft          (* except KeyError -> QuicConnectionError *)
   end.
 
@@ -546,7 +554,7 @@ Definition recv_header_decide (patched is_client firstflight : bool) (ptype dgra
 (* ---------- executable interface --------------------------------------------------------
    tokens: mode ...
      mode 0 (packet):  patched epoch crypto_required reserved_bits, 17 scalars, oracle (3),
-                       6 length-prefixed lists, streams, 3 crypto receivers, payload (length-prefixed)
+                       7 length-prefixed lists (the last: host CIDs never sent), streams, 3 crypto receivers, payload (length-prefixed)
        -> kind (0 ok | 1 closed by us | 2 closed by peer | 3 exception) code ft nlog
      mode 1 (header):  patched is_client firstflight ptype dgram_len dcid_known version_supported
        -> kind (0 process | 1 drop | 2 negotiate | 3 exception) value *)
@@ -601,6 +609,7 @@ Definition exec_packet (t : list Z) : list Z :=
       let '(chal, t) := tk_list t in
       let '(fin, t) := tk_list t in
       let '(tls_buf, t) := tk_list t in
+      let '(unsent, t) := tk_list t in
       match t with
       | ns :: t =>
           let '(streams, t) := rd_streams (Z.to_nat ns) t in
@@ -611,7 +620,7 @@ Definition exec_packet (t : list Z) : list Z :=
           let st := mkCst (z2b is_client) md_used md_value ms_bidi ms_uni msd_br msd_uni dgram_max
                           host_seq ctx_cid rlimit peer_seq peer_rpt pending cid_limit tls_state
                           (mkTlsOracle ok ov oft) host_cids avail seen chal fin tls_buf streams
-                          ci ch c1 None in
+                          ci ch c1 None unsent in
           out_outcome (receive_packet (z2b patched) st epoch (z2b creq) (z2b rbits) payload)
       | [] => []
       end
